@@ -494,3 +494,11 @@ def x3(cx: Cx, ob: Ob) -> None:
     from ..rules import cached_derivations
 
     cached_derivations(cx, ob)
+
+
+@obligation("C15-D8", "text files AGREE: _get_file opens triples files for reading and for writing with the same encoding / errors arguments (plain and gzip)", floor=2)
+def d8(cx: Cx, ob: Ob) -> None:
+    from ..rules import open_args_agreement
+
+    T = "curies.triples"
+    open_args_agreement(cx, ob, [f"{T}._get_file", f"{T}.write_triples"], [f"{T}._get_file", f"{T}.read_triples"], "triples round trip")
